@@ -5,6 +5,7 @@ import (
 	"math"
 	"strings"
 	"testing"
+	"unicode/utf8"
 
 	"go.1password.io/spg"
 	"pgregory.net/rapid"
@@ -43,6 +44,14 @@ func genTokValue(t *rapid.T) string {
 		n = rapid.IntRange(1, 12).Draw(t, "short_len")
 	}
 	mode := rapid.IntRange(0, 3).Draw(t, "charmode")
+	if n <= 12 && rapid.IntRange(0, 11).Draw(t, "invalid_utf8") == 0 {
+		// words from a Latin-1 file, say: bytes that are not valid UTF-8 (one character each)
+		var b strings.Builder
+		for i := 0; i < n; i++ {
+			b.WriteString(rapid.SampledFrom([]string{"a", "f", "\xe9", "\xf1", "\xff", "\xc3", "é"}).Draw(t, "latin1"))
+		}
+		return b.String()
+	}
 	var b strings.Builder
 	for i := 0; i < n; i++ {
 		switch {
@@ -227,7 +236,14 @@ func c11RunToks(c c11Case) error {
 	}
 	c11Classify(c.Toks)
 	ev.Sample("c11_tokens", 3, c)
-	return roundTrip(&p, true)
+	must := true
+	for _, t := range c.Toks {
+		if !utf8.ValidString(t.V) {
+			must = false // error or exact round trip
+			ev.Class("invalid_utf8_token")
+		}
+	}
+	return roundTrip(&p, must)
 }
 
 func c11RunRecipe(c c11Case) error {
